@@ -13,7 +13,7 @@ PER_INST = "results are per instantiation of the monomorphised functions, N in {
 PROPS = {
     "C07": {
         "level": "proof",
-        "units": ["ps", "keys", "pedersen", "cor_ps", "lemmas_ps", "lemmas_algebra"], "kani": ["secret_key_scalars_own_draws_n2"],
+        "units": ["ps", "keys", "pedersen", "cor_ps", "lemmas_ps", "lemmas_algebra", "validators"], "kani": ["secret_key_scalars_own_draws_n2", "secret_key_scalars_nonzero_n1"],
         "assumptions": [
             PER_INST,
             "key well-formedness (ps_key_ok) is established by KeyPair::new (C19) or by decode-time validation (C15)",
@@ -24,7 +24,7 @@ PROPS = {
     },
     "C08": {
         "level": "proof",
-        "units": ["sproof", "ps", "keys", "cor_ps", "cor_sproof", "lemmas_ps", "lemmas_schnorr"],
+        "units": ["sproof", "ps", "keys", "cor_ps", "cor_sproof", "lemmas_ps", "lemmas_schnorr", "validators"],
         "scans": ["verified_blinded_message_sites"],
         "kani": ["g1_codec_validates", "secret_key_scalars_own_draws_n2"],
         "assumptions": [PER_INST, "a request arriving from the wire has its G1 atoms decoded by the element codec, which is shown to accept exactly what bls12_381's validating decoder accepts (prime-order subgroup membership is that decoder's documented contract)", "PS unforgeability and discrete-log binding are cryptographic hypotheses, not decided here"],
@@ -98,7 +98,7 @@ PROPS = {
     },
     "C02": {
         "level": "proof",
-        "units": ["za_merchant", "sproof", "cproof", "range", "challenge", "transcripts", "cor_merchant", "lemmas_schnorr", "lemmas_range_soundness"],
+        "units": ["za_merchant", "sproof", "cproof", "range", "challenge", "transcripts", "cor_merchant", "lemmas_schnorr", "lemmas_range_soundness", "za_nonce_revlock"],
         "scans": ["verified_blinded_state_sites", "verified_blinded_close_state_sites", "verified_blinded_message_sites"],
         "assumptions": [
             "as C01, plus unforgeability of PS signatures (pay token, digit signatures)",
@@ -108,7 +108,7 @@ PROPS = {
     },
     "C03": {
         "level": "proof",
-        "units": ["za_customer", "za_states", "za_merchant", "cor_customer", "lemmas_ps"],
+        "units": ["za_customer", "za_states", "za_merchant", "cor_customer", "lemmas_ps", "ps"], "kani": ["g1_codec_validates"],
         "scans": ["revocation_pair_release_sites", "lock_message_sites", "no_unsafe"],
         "assumptions": [
             "the re-randomiser drawn in close() is non-zero (probability 2^-255 otherwise)",
